@@ -43,8 +43,6 @@ TRUSTED = [
     'modelled, not verified: IEEE rounding; numpy PRNG (assumed to return values in the documented ranges), np.sin, np.exp, '
     'np.linalg.det / eigvals / eigvalsh / norm, np.power (their answers are recorded, their contracts are hypotheses of '
     'the theorems and are checked numerically on every recorded answer)',
-    'mathematical facts used as oracle contracts, not proved here: determinants of (anti)hermitian matrices reaching '
-    'make_det_one are real; real antisymmetric matrices of odd dimension have determinant 0',
 ]
 ASSUMPTIONS = ['PRNG contracts: random_sample/rand in [0,1), randint(low, high) in [low, high), random.choice returns a listed member',
                '|sin| <= 1 and |exp(it)| = 1 for the values np.sin / np.exp return (checked on every recorded value)',
@@ -107,6 +105,8 @@ Definition scase_ok (c : scase) : bool :=
       let rg := Gen.Sampler.gen_integer_range_init a b in
       let call := Gen.Sampler.gen_integer_range_call (fst rg) (snd rg) in
       (fst call =? lo)%Z && (snd call =? hi)%Z && (obs =? r)%Z && (Z.min a b <=? obs)%Z && (obs <=? Z.max a b)%Z
+      (* both endpoints attainable: the regenerated call covers exactly [min, max] *)
+      && (fst call =? Z.min a b)%Z && (snd call =? Z.max a b + 1)%Z
       && (fst (integer_range_call (fst (integer_range_init a b)) (snd (integer_range_init a b))) =? lo)%Z
   | SRect re0 re1 im0 im1 u1 u2 obs =>
       let z := complex_rectangle re0 re1 im0 im1 u1 u2 in
